@@ -1,6 +1,6 @@
 """C11 — errors name their true cause (the transcoder's error plumbing)."""
 from engine import rule, AnchorLost
-from model import Super, fn_of, trace, is_place, site, const_value
+from model import enum_edge, Super, fn_of, trace, is_place, site, const_value
 import common
 
 TEXT = "translation failed"
@@ -196,8 +196,8 @@ def r11_2(ctx):
                                 ok = True
                     sw = b.blocks[it["target"]]["term"]
                     if sw["k"] == "switch":
-                        z = [y for v, y in sw["targets"] if v == 0]
-                        if z and b.edge_dominates(it["target"], 0, z[0], bb):
+                        e = enum_edge(b, it["target"], 0)
+                        if e and b.edge_dominates(e[0], e[1], e[2], bb):
                             ok = True
                     if ok:
                         det = "created only when the visitor captured no serializer error (source is then the deserializer)"
